@@ -221,11 +221,15 @@ def duration_texts(secs, rng, per_duration=None):
 # the check
 
 YEARS = [1, 4, 100, 400, 1582, 1969, 1970, 2000, 2016, 2100, 9999]
+YEARS_MORE = [0, -43, -1, -400, 1600, 1700, 1800, 1900, 2400, 1999, 2038, 8000]
 DAYS = [(1, 1), (2, 28), (2, 29), (3, 1), (12, 31)]
+DAYS_MORE = [(1, 31), (4, 30), (6, 30), (7, 31), (10, 15), (11, 30), (12, 1), (1, 2), (3, 31)]
 TIMES = [(0, 0, 0, ""), (12, 0, 0, ""), (23, 59, 59, ""), (23, 59, 59, "999999999"), (1, 2, 3, "000000001"), (12, 30, 15, "5")]
+TIMES_MORE = [(11, 59, 59, "999"), (12, 59, 59, ""), (0, 0, 0, "000000001"), (13, 0, 0, ""), (0, 59, 59, "5")]
 ZONES = ["UTC", "US/Pacific", "Europe/London", "Asia/Kolkata", "Pacific/Apia"]
 # kind 0: none, 1: fixed (seconds), 2: named zone (index into ZONES)
 OFFSETS = [(0, 0), (1, 0), (1, -14400), (1, 19800), (1, 50400), (1, -12600), (2, 2), (2, 4)]
+OFFSETS_MORE = [(1, -1800), (1, 45900), (1, -43200), (1, 86340), (1, -86340), (2, 1), (2, 3), (2, 5)]
 WRITERS = ["isoT", "iso", "isodate", "ord", "mdy12", "mdy24", "mdy", "ctime", "ymd12", "ymd24"]
 CONV_OFFSETS = ["+00:00", "-04:00", "+05:30", "+14:00", "-03:30", "+23:59", "-23:59", "+24:00", "-24:00", "+99:00", "-00:00", "-99:59"]
 ANCHORS = ["0001-01-01 00:00:00", "1970-01-01T00:00:00 +00:00", "2000-02-29 23:59:59.999999999 -04:00",
@@ -328,20 +332,47 @@ def run(tier, seed):
     rng = random.Random(seed)
     shards = 12 if thorough else 8
 
-    # G1: grid of boundary instants x offsets x writers x rotating forms
+    # G1: grid of boundary instants x offsets x writers x rotating forms.  A literal is kept when its hash (shifted by the
+    # seed) falls on residue 0 modulo K; the thorough tier walks through several residues, one chunk at a time.
     durs_rot = duration_texts(secs, rng, per_duration=None if thorough else 4)
-    years = YEARS + ([0, -43] if thorough else [])
-    grid, r1 = gen("c14grid", "grid", seed, k=1 if thorough else 7, forms_per=3 if thorough else 1, years=years, days=DAYS, times=TIMES,
-                   offsets=OFFSETS, writers=WRITERS, durs=durs_rot, anchors=ANCHORS, convoffs=CONV_OFFSETS, zones=ZONES,
-                   workers=8 if thorough else 4, timeout=2400, coverage=True)
-    vacuity_gate(r1, "grid")
-    run.add_tlc(r1, "MC_DateGen grid")
-    c1 = decide(run, grid, "grid", units, shards)
-    run.sample({"leg": "grid", "q": grid[len(grid) // 2]["q"]})
-    run.sample({"leg": "grid", "q": grid[len(grid) // 5]["q"]})
+    if thorough:
+        years, days, times, offsets, kmod, chunks, fper = YEARS + YEARS_MORE, DAYS + DAYS_MORE, TIMES + TIMES_MORE, OFFSETS + OFFSETS_MORE, 16, 8, 4
+    else:
+        years, days, times, offsets, kmod, chunks, fper = YEARS, DAYS, TIMES, OFFSETS, 3, 1, 1
+    c1 = {}
+    ngrid = 0
+    for j in range(chunks):
+        grid, r1 = gen("c14grid", "grid", seed + j, k=kmod, forms_per=fper, years=years, days=days, times=times,
+                       offsets=offsets, writers=WRITERS, durs=durs_rot, anchors=ANCHORS, convoffs=CONV_OFFSETS, zones=ZONES,
+                       workers=8 if thorough else 4, timeout=2400, coverage=True)
+        vacuity_gate(r1, "grid")
+        run.add_tlc(r1, "MC_DateGen grid (residue %d of %d)" % (j, kmod))
+        for t, n in decide(run, grid, "grid", units, shards).items():
+            c1[t] = c1.get(t, 0) + n
+        ngrid += len(grid)
+        if j == 0:
+            run.sample({"leg": "grid", "q": grid[len(grid) // 2]["q"]})
+            run.sample({"leg": "grid", "q": grid[len(grid) // 5]["q"]})
+        del grid
+
+    # G1r: the same machine over seeded random instants, offsets and durations
+    ry = sorted(rng.sample(range(1, 10000), 8 if thorough else 4))
+    rd = sorted({(m, rng.randint(1, 28 if m == 2 else 30)) for m in rng.sample(range(1, 13), 8 if thorough else 4)})
+    rt = sorted({(rng.randint(0, 23), rng.randint(0, 59), rng.randint(0, 59),
+                  "".join(rng.choice("0123456789") for _ in range(rng.choice([0, 1, 3, 6, 9, 9]))))
+                 for _ in range(8 if thorough else 4)})
+    ro = [(0, 0)] + sorted({(1, rng.choice([-1, 1]) * (rng.randint(0, 23) * 3600 + rng.choice([0, 15, 30, 45, 59]) * 60))
+                            for _ in range(6 if thorough else 3)}) + [(2, rng.randint(1, len(ZONES)))]
+    rdur = random_duration_texts(secs, rng, 400 if thorough else 60)
+    rgrid, r1r = gen("c14rand", "grid", seed, k=2, forms_per=4 if thorough else 2, years=ry, days=rd, times=rt, offsets=ro,
+                     writers=WRITERS, durs=rdur, anchors=ANCHORS, convoffs=CONV_OFFSETS, zones=ZONES, workers=4, timeout=2400, coverage=True)
+    vacuity_gate(r1r, "grid")
+    run.add_tlc(r1r, "MC_DateGen grid over seeded random constants")
+    c1r = decide(run, rgrid, "rand", units, shards)
+    run.sample({"leg": "rand", "q": rgrid[len(rgrid) // 2]["q"]})
 
     # G2: every duration text x anchors x arithmetic forms
-    durs_all = duration_texts(secs, rng, per_duration=None if thorough else 3)
+    durs_all = duration_texts(secs, rng, per_duration=None if thorough else 6)
     anchors = ANCHORS if thorough else [ANCHORS[i] for i in sorted(rng.sample(range(6), 2) + rng.sample(range(6, len(ANCHORS)), 1))]
     dur, r2 = gen("c14dur", "dur", seed, durs=durs_all, anchors=anchors, workers=2, timeout=1200, coverage=True)
     vacuity_gate(r2, "dur")
@@ -362,9 +393,9 @@ def run(tier, seed):
     # regression seeds
     c4 = decide(run, [{"q": q, "mut": "none"} for q in SEEDS], "seeds", units, 1, min_per_shard=1000)
     run.sample({"leg": "seeds", "q": SEEDS[2]})
-    run.note("verdict_counts", {"grid": c1, "dur": c2, "bad": c3, "seeds": c4})
-    for leg, c in (("grid", c1), ("dur", c2), ("bad", c3)):
-        n = {"grid": len(grid), "dur": len(dur), "bad": len(bad)}[leg]
+    run.note("verdict_counts", {"grid": c1, "rand": c1r, "dur": c2, "bad": c3, "seeds": c4})
+    for leg, c in (("grid", c1), ("rand", c1r), ("dur", c2), ("bad", c3)):
+        n = {"grid": ngrid, "rand": len(rgrid), "dur": len(dur), "bad": len(bad)}[leg]
         if c.get("SILENT", 0) + c.get("UNSUPPORTED", 0) > n // 2:
             raise vlib.ToolError("leg %s: the specification was silent on more than half of the generated queries" % leg)
 
@@ -403,6 +434,15 @@ def replay(path, seed):
     v = verdicts.get(0, {"ACCEPT"})
     log("query: %r\nobserved: %s\nverdict: %s" % (q, json.dumps(obs_brief(res[0]))[:600], sorted(v)))
     return 1 if v & {"REJECT", "CRASH"} else 0
+
+
+def random_duration_texts(secs, rng, n):
+    """seeded random whole-nanosecond durations (1 ns .. about 10^21 ns), random sign, random unit spelling"""
+    out = []
+    for _ in range(n):
+        ns = rng.getrandbits(rng.randint(1, 70)) + 1
+        out.append(rng.choice(["", "-"]) + spell(ns, rng.choice(TIME_SPELLINGS), secs))
+    return out
 
 
 def probe(texts):
